@@ -69,7 +69,7 @@ def subset(fdp, N, n):
 
 
 def decode_gate(fdp, N):
-    kinds = ['rot', 'fmap', 'bmap', 'H', 'S', 'X', 'Y', 'Z', 'C', 'CNOT']
+    kinds = ['rot', 'rotc', 'fmap', 'bmap', 'H', 'S', 'X', 'Y', 'Z', 'C', 'CNOT']
     kind = kinds[fdp.ConsumeIntInRange(0, len(kinds) - 1)]
     if kind == 'CNOT' and N < 2:
         kind = 'H'
@@ -78,7 +78,12 @@ def decode_gate(fdp, N):
         g = pauli_str(fdp, n, (0, 2))
         if all(c == 'I' for c in g[1:]):
             g = g[0] + 'X' + g[2:]
-        return {'kind': 'rot', 'qubits': sorted(subset(fdp, N, n)), 'gen': g}
+        return {'kind': 'rot', 'qubits': sorted(subset(fdp, N, n)), 'gen': g, 'genform': ['pauli', 'monomial'][fdp.ConsumeIntInRange(0, 1)]}
+    if kind == 'rotc':
+        g = pauli_str(fdp, N, (0, 2))
+        if all(c == 'I' for c in g[1:]):
+            g = g[0] + 'Y' + g[2:]
+        return {'kind': 'rotc', 'gen': g, 'form': ['pauli', 'str', 'monomial', 'monomial-half'][fdp.ConsumeIntInRange(0, 3)], 'qubits': [i for i, ch in enumerate(g[1:]) if ch != 'I']}
     if kind in ('fmap', 'bmap'):
         n = fdp.ConsumeIntInRange(1, min(N, 2))
         idx = fdp.ConsumeIntInRange(0, ref.clifford_group_size(n) - 1)
